@@ -250,6 +250,17 @@ func streamText(c *ctx) {
 		s := mutateText(fmt.Sprintf("%02d:%02d", r.Intn(26), r.Intn(62)))
 		emit(rng.Pick(r, "hhmm-parse", "hhmm-json"), s, "hhmm/mutated")
 	}
+	// every position of a few times replaced by each character a hand-rolled number parser may tolerate
+	// (signs, blanks, a point, a letter, a full-width digit, an underscore, a hex prefix letter)
+	for _, base := range []string{"08:30", "00:30", "24:00", "10:05", "23:59"} {
+		for pos := 0; pos < len(base); pos++ {
+			for _, ch := range []string{"+", "-", " ", ".", "x", "_", "０", "\t", "e"} {
+				s := base[:pos] + ch + base[pos+1:]
+				emit("hhmm-parse", s, "hhmm/one-position-replaced")
+				emit("hhmm-json", s, "hhmm/one-position-replaced")
+			}
+		}
+	}
 	// --- PIN
 	for _, s := range []string{"", "0", "1", "000000", "000012", "999999", "1000000", "0999999", "12345a", "-1", " 1", "1 ", "１２"} {
 		emit("pin-json", s, "pin/boundary")
@@ -291,7 +302,7 @@ func streamText(c *ctx) {
 		}
 		emit("version-json", s, "version")
 	}
-	for _, s := range []string{"", "0", "12", "123", "12345", "0x12", "FFFF", "ffff", "xyz", " 0892", "08 92"} {
+	for _, s := range []string{"", "0", "12", "123", "12345", "0x12", "FFFF", "ffff", "xyz", " 0892", "08 92", "-001", "+001", "-fff", "8000", "7fff", "8a12", "0_12", "1e1"} {
 		emit("version-json", s, "version/edge")
 	}
 	for i := 0; i < N/2; i++ {
